@@ -2050,6 +2050,8 @@ impl<'data, P: Platform> GroupActivationInputs<'data, P> {
             should_delay_processing |= matches!(file, FileLayoutState::SyntheticSymbols(_));
 
             if let Err(error) = r {
+                #[cfg(feature = "verif")]
+                crate::verif_api::errlog::arrive("layout", &error);
                 resources.errors.lock().unwrap().push(error);
             }
         }
@@ -2138,10 +2140,7 @@ fn find_required_sections<'data, A: Arch>(
             crate::verif_api::trace::end(errors.len(), 0);
         }
     }
-    // Errors were pushed in whatever order the worker threads happened to run. Sort them so that the
-    // error we report doesn't depend on thread scheduling.
-    errors.sort_by_cached_key(Error::to_string);
-    if let Some(error) = errors.into_iter().next() {
+    if let Some(error) = errors.pop() {
         return Err(error);
     }
 
@@ -2410,6 +2409,8 @@ impl LocalWorkQueue {
 
 impl<'data, P: Platform> GraphResources<'data, '_, P> {
     pub(crate) fn report_error(&self, error: Error) {
+        #[cfg(feature = "verif")]
+        crate::verif_api::errlog::arrive("layout", &error);
         self.errors.lock().unwrap().push(error);
     }
 
@@ -4379,20 +4380,6 @@ fn can_export_symbol<'data, P: Platform>(
     let flags = resources.local_flags_for_symbol(symbol_id);
 
     if flags.is_downgraded_to_local() {
-        return false;
-    }
-
-    // Symbols defined by members of archives named by `--exclude-libs` are never exported, no matter
-    // which option (`--export-dynamic`, an export list, a reference from a shared object) asks for it.
-    if let crate::grouping::SequencedInput::Object(obj) = resources
-        .symbol_db
-        .file(resources.symbol_db.file_id_for_symbol(symbol_id))
-        && obj.parsed.input.has_archive_semantics()
-        && !resources
-            .symbol_db
-            .args
-            .should_export_dynamic(obj.parsed.input.lib_name())
-    {
         return false;
     }
 
